@@ -151,9 +151,15 @@ def rule_b(ctx: Ctx) -> None:
                     ok, why = True, "carried into a new node (tree-to-tree)"
             elif isinstance(p, ast.Call) and a in p.args and (call_name(p) or "").split(".")[-1] in ("add_comments",):
                 ok, why = True, "add_comments (tree-to-tree)"
-            elif isinstance(p, (ast.BoolOp, ast.If, ast.IfExp, ast.UnaryOp, ast.While)) or isinstance(p, ast.Compare):
-                # truth test / part of the `comments` selection expression inside maybe_comment
-                ok, why = True, "truth test / selection"
+            else:
+                # truth test: climb through and/or/not/comparisons; the value must end up in a test position
+                cur, q = a, p
+                while isinstance(q, (ast.BoolOp, ast.UnaryOp, ast.Compare)):
+                    cur, q = q, m.parent(q)
+                if isinstance(q, (ast.If, ast.IfExp, ast.While)) and q.test is cur:
+                    ok, why = True, "truth test"
+                elif isinstance(q, ast.comprehension) and cur in q.ifs:
+                    ok, why = True, "truth test"
             elif isinstance(p, ast.Assign) and where.endswith("maybe_comment"):
                 ok, why = True, "inside maybe_comment"
             if f is not None and f.key == f"{GEN}:Generator.maybe_comment":
